@@ -10,6 +10,11 @@ CLAIMED = {
         text="Exhaustive TLC exploration of the adaptive loop / fixed-level variant (every sequence of sample-size vectors and bias-test answers within small bounds) for RowsExact / MidRunRows / AllSamplesKept / NoCrash; TLC-generated and random environment scripts are replayed into the real Engine.price / price_with_constant_mc_paths_and_level and every recorded run is validated by TLC against the specification: N_l, array contents, level means/variances/cost/price must be the exact integer functions of the samples that were simulated.",
         note="Trusted: TLC, the ScriptedCoupling stub (sample identity carried as payoff), exact-integer / rank sensors. Payoff dimension 1 only (the MLMC path manager cannot hold vector payoffs). Kurtosis and control-variate results are compared with the repository's own estimator applied to the samples the spec says the level holds (rank equality up to 1e-9).",
         ref="5 (C05)"),
+    "C06": dict(
+        technique="TLA+ specs MLMC.tla (loop, incl. liveness under weak fairness) and Allocation.tla (Giles allocation / bias test over exact rationals) model-checked by TLC; real compute_mc_paths_giles / criteria_giles / Engine.price runs trace-validated by TLC",
+        text="TLC checks on MLMC.tla, for every loop history within bounds: level bound, return only after the 1% rule, process existence, termination (liveness, weak fairness, bounded environment). Allocation.tla: TLC checks the variance budget for all perfect-square variance/cost vectors (<= 3 levels) and rational rmse^2 with the variance/bias shares MEASURED on the code passed as constants, and that the two shares fit in rmse^2. The real allocation function and bias test are run on the same enumerated inputs and validated by TLC in exact rational arithmetic; recorded runs of the real engine (scripted, random and real Giles criteria) are validated against the loop monitor (exit only on criteria, allocation met within 1%, level bound).",
+        note="Trusted: TLC, sensors, ScriptedCoupling. Known findings (recorded, not repaired): fall-out exit of the while loop (C06-fallout), zero-cost levels (C06-zerocost). Termination is for environments with bounded sample sizes. initial_level <= maximum_level assumed.",
+        ref="5 (C06)"),
 }
 
 NOT_APPLICABLE = {
